@@ -303,6 +303,14 @@ func cmdConc(args []string) int {
 			go func() { defer pair.Done(); e.VLink(ix, a, b, "half", "", 2, nil) }()
 			go func() { defer pair.Done(); e.VUnlink(ix, a, b, "half", "", i%2 == 0) }()
 			pair.Wait()
+			// ... and the two nodes linked to each other in opposite directions at the same time (two shard locks taken by
+			// each call: whatever the two ids hash to, the calls must not wait for each other forever)
+			for k := 0; k < 3; k++ {
+				pair.Add(2)
+				go func() { defer pair.Done(); e.VLink(ix, a, b, "opp", "", 1, nil) }()
+				go func() { defer pair.Done(); e.VLink(ix, b, a, "opp", "", 1, nil) }()
+				pair.Wait()
+			}
 			links, _ := e.VGetLinks(ix, a, "half")
 			inc, _ := e.VGetIncoming(ix, b, "half")
 			fwd, rev := false, false
